@@ -4,7 +4,7 @@ import json
 import synfam
 from synfam import formulas_of, rand_formula
 
-STYLES = ['obj', 'raw', 'parsed', 'ops']
+STYLES = ['obj', 'raw', 'parsed', 'ops', 'strsub', 'rewrap']
 
 
 def run(ctx):
